@@ -359,9 +359,14 @@ func (rf *Ref) listMethod(l *LV, name string, args []V) (V, *ZErr) {
 
 // foundAt: the numeric convention of 寻找 is not fixed by the statement; only
 // "found iff 包含" is compared (see C12), so the reference returns a marker.
-type FoundIdx struct{ Found bool }
+// The one arithmetic defined on it is the difference of two markers (the distance between the two
+// positions, -1 standing for "absent"), which is the same under every numbering.
+type FoundIdx struct {
+	Found bool
+	Pos   int
+}
 
-func foundAt(i int) V { return FoundIdx{Found: i >= 0} }
+func foundAt(i int) V { return FoundIdx{Found: i >= 0, Pos: i} }
 
 func (rf *Ref) dictMethod(d *DV, name string, args []V) (V, *ZErr) {
 	switch name {
